@@ -70,11 +70,11 @@ def lockAll (st : TxSt) : List Key → TxSt × Bool
     if ok then lockAll st' ks else (st', false)
 
 /-- `_unlock_updates`: `unlock(key, id)` = `if _get(key) != id: return False; _delete(key)` for every held lock -/
+def unlockOne (id : Nat) (b : Mem) (lk : Key) : Mem :=
+  if (b.rawGet lk).2 = some (.tok id) then ((b.rawGet lk).1.rawDelete lk).1 else (b.rawGet lk).1
+
 def unlockAll (st : TxSt) : TxSt :=
-  let b' := st.locks.foldl (fun b lk =>
-    let (b1, r) := b.rawGet lk
-    if r = some (.tok st.lockId) then (b1.rawDelete lk).1 else b1) st.b
-  { st with b := b', locks := [] }
+  { st with b := st.locks.foldl (unlockOne st.lockId) st.b, locks := [] }
 
 /-! ### `TransactionBackend` methods -/
 
